@@ -587,7 +587,8 @@ Section Safety.
   Proof.
     intros Hr Hq Hlt Hw. destruct (inv_reachable s Hr) as (_ & _ & _ & _ & HS & _).
     destruct (polka (soup s) r' w) eqn:Hp; [|reflexivity].
-    rewrite (qprecommit_choosable _ _ _ Hq) in (HS r b r' w Hp Hlt Hw). discriminate.
+    pose proof (HS r b r' w Hp Hlt Hw) as Hn.
+    rewrite (qprecommit_choosable _ _ _ Hq) in Hn. discriminate.
   Qed.
 
   (* two quorums of precommits, in any two rounds, are for the same block *)
@@ -782,7 +783,7 @@ Theorem tm_no_equivocation :
   forall (n : nat) (byz : nat -> bool), 3 * countn byz n < n ->
   forall s k r t v w, reachable n byz s -> correct n byz k = true ->
     has_vote (soup s) k r t v = true -> has_vote (soup s) k r t w = true -> v = w.
-Proof. intros n byz H s k r t v w. exact (no_correct_equivocation n byz s k r t v w). Qed.
+Proof. intros n byz H s k r t v w. exact (no_correct_equivocation n byz H s k r t v w). Qed.
 
 Theorem tm_precommit_implies_polka :
   forall (n : nat) (byz : nat -> bool), 3 * countn byz n < n ->
